@@ -32,6 +32,18 @@ package standard
 //@   requires v != nil
 //@   ensures result1 == nil ==> propPresent(v) && result0 == bodyRootOf(v)
 //@
+//@ // ---- C16: what the callers and the client libraries guarantee ----
+//@ func (*Service).obtainGraffiti
+//@   assumes call NodeClient#1 (r, err): err == nil ==> r != nil
+//@
+//@ func (*Service).auctionBlock
+//@   requires duty != nil && duty.account != nil && s.blockAuctioneer != nil
+//@   // the relays named by an auction result are real clients (assumed of the block auctioneer)
+//@   assumes call AuctionBlock#1 (res, err): err == nil ==> res != nil && (forall k int :: 0 <= k && k < len(res.Providers) ==> res.Providers[k] != nil) && (forall k int :: 0 <= k && k < len(res.AllProviders) ==> res.AllProviders[k] != nil)
+//@   ensures result1 == nil ==> result0 != nil && (forall k int :: 0 <= k && k < len(result0.Providers) ==> result0.Providers[k] != nil) && (forall k int :: 0 <= k && k < len(result0.AllProviders) ==> result0.AllProviders[k] != nil)
+//@   ensures result1 != nil ==> result0 == nil
+//@   modifies nothing
+//@
 //@ // ---- C05 ----
 //@ func validateDuty
 //@   ensures result1 == nil <==> (duty != nil && !iszero(duty.randaoReveal) && duty.account != nil)
@@ -73,6 +85,7 @@ package standard
 //@
 //@ func (*Service).unblindProposal
 //@   requires proposal != nil
+//@   chaninv respCh (m): m != nil
 //@   requires forall k int :: 0 <= k && k < len(providers) ==> providers[k] != nil
 //@   // nil result: the proposal is no longer blinded and holds the full block a relay returned
 //@   ensures result == nil ==> !proposal.Blinded && proposal.Version == old(proposal.Version)
@@ -80,16 +93,18 @@ package standard
 //@
 //@ func (*Service).unblindProposal$1
 //@   thread
-//@   requires proposal != nil && provider != nil
+//@   requires proposal != nil && provider != nil && !closed(ch)
+//@   assumes call UnblindProposal (r, err): err == nil ==> r != nil && r.Data != nil
+//@   chaninv ch (m): m != nil
 //@   // the relay is sent precisely the signed blinded block
 //@   at call UnblindProposal: assert arg1 != nil && arg1.Proposal != nil && arg1.Proposal.Version == proposal.Version && arg1.Proposal.Bellatrix == proposal.BellatrixBlinded && arg1.Proposal.Capella == proposal.CapellaBlinded && arg1.Proposal.Deneb == proposal.DenebBlinded
 //@
 //@ func (*Service).proposeBlock
-//@   requires duty != nil
+//@   requires duty != nil && duty.account != nil
 //@   assumes call Proposal#1 (resp, err): err == nil ==> resp != nil && resp.Data != nil
-//@   assumes call AuctionBlock#1 (res, err): err == nil ==> res != nil
 //@   loop 1
 //@     invariant forall k int :: 0 <= k && k < len(providers) ==> providers[k] != nil
+//@     invariant forall k int :: 0 <= k && k < len(unblindingCandidates) ==> unblindingCandidates[k] != nil
 //@   // exactly the signed block is submitted, and never a blinded one
 //@   at call SubmitProposal#1: assert arg1 == signedProposal && !signedProposal.Blinded
 //@   // a failed auction degrades to a locally built block: the proposal is still requested
@@ -97,6 +112,7 @@ package standard
 //@   ensures result == nil ==> calls(SubmitProposal) == 1
 //@
 //@ func (*Service).Propose
+//@   assumes call NodeClient#1 (r, err): err == nil ==> r != nil
 //@   assumes call validateDuty#1 (sl, err): err == dutyErr()
 //@   // failure to obtain graffiti does not skip the proposal
 //@   ensures dutyErr() == nil ==> calls(proposeBlock) == 1
